@@ -426,6 +426,12 @@ def case(ctx, i, rng):
         return
     C = o.value
     C0 = _plain_dicts(copy.deepcopy(C))  # a dump cannot say "ordered": the reference holds plain dicts, the dumped object is C
+    if spec.get("cfg") and not spec.get("sub") and rng.random() < 0.25:
+        # between the accepted configuration and its round trips the program makes a parse that is rejected inside its --cfg,
+        # after other settings (of the same keys, other values) were taken from the command line: no concern of the round trip
+        _, argv2 = make_inputs(rng, spec)
+        ob = call(p.parse_args, list(argv2) + [rng.choice(["--cfg={", "--cfg=/no/such/file.yaml", '--cfg={"zz_unknown": 1}'])])
+        ctx.count("st.rejected_parse_between_accept_and_round_trip" + ("" if ob.rejected else ".not-rejected"))
     dests = cfg_dests(spec)
     types = P.arg_types(spec)
     for k, t in types.items():
